@@ -463,6 +463,13 @@ class EltoritoEntry:
         """
         if not self._initialized:
             raise pycdlibexception.PyCdlibInternalError('El Torito Entry not initialized')
+        # A floppy image always has the full size of the emulated media, no
+        # matter how many sectors of it are loaded at boot time.
+        floppy_sizes = {self.MEDIA_12FLOPPY: 1228800,
+                        self.MEDIA_144FLOPPY: 1474560,
+                        self.MEDIA_288FLOPPY: 2949120}
+        if self.boot_media_type in floppy_sizes:
+            return floppy_sizes[self.boot_media_type]
         # According to El Torito, the sector count is in virtual sectors, which
         # are defined to be 512 bytes.
         return self.sector_count * 512
